@@ -683,7 +683,10 @@ class Sum(Box):
         return hash(repr(self))
 
     def __repr__(self):
-        return self.name
+        if not self.terms:
+            return "Sum([], dom={}, cod={})".format(
+                repr(self.dom), repr(self.cod))
+        return "Sum({})".format(repr(self.terms))
 
     def __str__(self):
         if not self.terms:
